@@ -121,27 +121,37 @@ int main(int argc, char **argv)
         std::string wj = "[";
         for (int i = 0; i < L; i++) wj += std::string(i ? "," : "") + "[" + num(MOVE[mv[i]]) + "," + num(FORCE[fc[i]]) + "]";
         wj += "]";
-        for (long sg = 0; sg < nseg; sg++) {
+        for (long sgk = 0; sgk < nseg * 3; sgk++) {
+          long sg = sgk % nseg;
+          // kind of run boundary: 0 = new run in the same process; 1 = state saved, new process loads it and repeats the
+          // stop step; 2 = as 1, and the new process evaluates the stop step twice ("run 0" followed by "run N")
+          int kind = (int) (sgk / nseg);
+          if (kind > 0 && (sg == 0 || (w % 4) != 1)) continue;
           // thorough: all segmentations for every second word, the unsegmented run for all; quick: everything
           if (thorough && sg != 0 && (w % 2) != 1) continue;
           r.count("evaluations");
           std::string det = "{\"sigma\":" + num(p.sigma) + ",\"tau\":" + num(p.tau) + ",\"dt\":" + num(p.dt) + ",\"damping\":" + num(p.gamma_ps) + ",\"reflecting\":" +
                             std::to_string(p.refl) + ",\"bypassing_bias\":" + (p.bypass ? "true" : "false") + ",\"moves_and_forces\":" + wj + ",\"new_run_after_steps\":" +
-                            std::to_string(sg);
-          vproxy *px = new vproxy(2);
-          px->set_target_temperature(300.0);
-          px->set_integration_timestep(p.dt);
-          for (int i = 0; i < 12; i++) px->rng.push_back(NOISE[i]);
-          for (int i = 0; i < 12; i++) px->rng.push_back(NOISE[i]);
+                            std::to_string(sg) + ",\"run_boundary\":\"" + (kind == 0 ? "same process" : (kind == 1 ? "state restart" : "state restart, stop step evaluated twice")) + "\"";
           double xi = 2.0;
-          px->x[1] = cvm::rvector(xi, 0, 0);
           double fnow = 0;
-          px->force_callback = [px, &fnow]() {
-            colvar *cv = px->cv("d");
-            if (cv) cv->add_bias_force(colvarvalue(fnow));
-            return COLVARS_OK;
+          vproxy *px = NULL;
+          auto make_px = [&](std::deque<double> const &rng) {
+            px = new vproxy(2);
+            px->set_target_temperature(300.0);
+            px->set_integration_timestep(p.dt);
+            px->rng = rng;
+            px->x[1] = cvm::rvector(xi, 0, 0);
+            px->force_callback = [&px, &fnow]() {
+              colvar *cvp = px->cv("d");
+              if (cvp) cvp->add_bias_force(colvarvalue(fnow));
+              return COLVARS_OK;
+            };
+            if (px->config(conf) != 0) { fprintf(stderr, "HARNESS-ERROR: config rejected: %s\n", px->errtxt.c_str()); exit(2); }
           };
-          if (px->config(conf) != 0) { fprintf(stderr, "HARNESS-ERROR: config rejected: %s\n", px->errtxt.c_str()); exit(2); }
+          std::deque<double> rng0;
+          for (int k = 0; k < 3; k++) for (int i = 0; i < 12; i++) rng0.push_back(NOISE[i]);
+          make_px(rng0);
           colvar *cv = px->cv("d");
           bool failed = false;
           bool after_reflection = false;
@@ -152,11 +162,23 @@ int main(int argc, char **argv)
             if (xi < 0.5) xi = 0.5;
             int ncalls = (s >= 1 && ((sg >> (s - 1)) & 1)) ? 2 : 1;  // a new run starts by repeating step s... see below
             (void) ncalls;
-            for (int rep = 0; rep < 2 && !failed; rep++) {
-              bool repeat = (rep == 1);
-              if (repeat) {
+            for (int rep = 0; rep < 3 && !failed; rep++) {
+              bool repeat = (rep >= 1);
+              if (rep == 1) {
                 // boundary after step s?
                 if (!(s < L - 1 && ((sg >> s) & 1))) break;
+                px->end_run();
+                if (kind > 0) {
+                  std::string st = px->state_text();
+                  std::deque<double> rest = px->rng;
+                  delete px;
+                  make_px(rest);
+                  px->queue_state_text(st);
+                  cv = px->cv("d");
+                }
+              }
+              if (rep == 2) {
+                if (kind != 2) break;
                 px->end_run();
               }
               fnow = FORCE[fc[s]];
